@@ -26,6 +26,7 @@ import (
 	"net/http/httptest"
 	"net/url"
 	"reflect"
+	"runtime"
 	"sort"
 	"strings"
 	"sync"
@@ -1510,4 +1511,261 @@ func describe(sc *scenario) []string {
 	return out
 }
 
-func main() { vh.Main(map[string]vh.Mode{"table": table, "replay": replay}) }
+// ---------------------------------------------------------------------------------------------------------
+// stall mode: a connection whose ResponseWriter.Write is stalled BEFORE it has consumed its argument, while
+// another connection of the same transport gets a message through. The bytes handed to Write belong to the
+// stalled connection until Write returns: whatever the handler does meanwhile for other connections (pooled
+// encoders / buffers) must not change them. In process, real handler, own http.ResponseWriter.
+
+type gateWriter struct {
+	hdr     http.Header
+	mu      sync.Mutex
+	p       parser
+	body    []byte
+	armed   bool
+	entered chan struct{} // Write was called while armed (argument not read yet)
+	release chan struct{}
+	notify  chan struct{}
+}
+
+func newGateWriter(kind string) *gateWriter {
+	return &gateWriter{hdr: http.Header{}, p: newParser(kind), entered: make(chan struct{}, 1), release: make(chan struct{}), notify: make(chan struct{}, 1)}
+}
+
+func (g *gateWriter) Header() http.Header { return g.hdr }
+func (g *gateWriter) WriteHeader(int)     {}
+func (g *gateWriter) Flush()              {}
+
+// the handlers set write deadlines through http.ResponseController
+func (g *gateWriter) SetWriteDeadline(time.Time) error { return nil }
+
+func (g *gateWriter) Write(b []byte) (int, error) {
+	g.mu.Lock()
+	armed := g.armed
+	g.armed = false
+	g.mu.Unlock()
+	if armed {
+		g.entered <- struct{}{}
+		<-g.release // the argument has not been looked at yet
+	}
+	g.mu.Lock()
+	g.body = append(g.body, b...)
+	g.p.Write(b)
+	g.mu.Unlock()
+	select {
+	case g.notify <- struct{}{}:
+	default:
+	}
+	return len(b), nil
+}
+
+func (g *gateWriter) arm() {
+	g.mu.Lock()
+	g.armed = true
+	g.mu.Unlock()
+}
+
+func (g *gateWriter) records() [][]byte {
+	g.mu.Lock()
+	defer g.mu.Unlock()
+	return append([][]byte{}, g.p.Records()...)
+}
+
+func (g *gateWriter) waitRecords(n int, d time.Duration) bool {
+	deadline := time.After(d)
+	for {
+		if len(g.records()) >= n {
+			return true
+		}
+		select {
+		case <-g.notify:
+		case <-time.After(10 * time.Millisecond):
+		case <-deadline:
+			return len(g.records()) >= n
+		}
+	}
+}
+
+type stallConn struct {
+	name   string
+	gw     *gateWriter
+	cs     *connState
+	cancel context.CancelFunc
+	done   chan struct{}
+}
+
+func (w *world) stallConnect(transport, name string, res *vh.Result) (*stallConn, error) {
+	sc := &scenario{ID: name, Transport: transport, Class: "stalled-write", Field: "payload", Channel: "ch-" + name}
+	cs := &connState{sc: sc, ready: make(chan struct{})}
+	w.mu.Lock()
+	w.conns[name] = cs
+	w.mu.Unlock()
+	cmd := &protocol.Command{Id: 1, Connect: &protocol.ConnectRequest{Name: name}}
+	var body []byte
+	kind := "nd"
+	var h http.Handler
+	switch transport {
+	case "hs-pb":
+		kind = "pb"
+		body, _ = protocol.NewProtobufCommandEncoder().Encode(cmd)
+		h = centrifuge.NewHTTPStreamHandler(w.node, centrifuge.HTTPStreamConfig{})
+	case "hs-json":
+		body, _ = json.Marshal(cmd)
+		h = centrifuge.NewHTTPStreamHandler(w.node, centrifuge.HTTPStreamConfig{})
+	case "sse-post":
+		kind = "es"
+		body, _ = json.Marshal(cmd)
+		h = centrifuge.NewSSEHandler(w.node, centrifuge.SSEConfig{})
+	}
+	ctx, cancel := context.WithCancel(context.Background())
+	req := httptest.NewRequest(http.MethodPost, "/x", bytes.NewReader(body)).WithContext(ctx)
+	if transport == "hs-pb" {
+		req.Header.Set("Content-Type", "application/octet-stream")
+	}
+	c := &stallConn{name: name, gw: newGateWriter(kind), cs: cs, cancel: cancel, done: make(chan struct{})}
+	go func() {
+		defer close(c.done)
+		h.ServeHTTP(c.gw, req)
+	}()
+	select {
+	case <-cs.ready:
+	case <-time.After(writeWait):
+		cancel()
+		return nil, fmt.Errorf("%s did not connect", name)
+	}
+	if !c.gw.waitRecords(1, writeWait) {
+		cancel()
+		return nil, fmt.Errorf("%s: no connect reply", name)
+	}
+	return c, nil
+}
+
+func pubData(transport string, rec []byte) (string, []byte, error) {
+	rep := &protocol.Reply{}
+	if transport == "hs-pb" {
+		if err := rep.UnmarshalVT(rec); err != nil {
+			return "", nil, err
+		}
+	} else {
+		r, err := protocol.NewJSONReplyDecoder(rec).Decode()
+		if err != nil {
+			return "", nil, err
+		}
+		rep = r
+	}
+	if rep.Push == nil || rep.Push.Pub == nil {
+		return "", nil, errors.New("not a publication")
+	}
+	return rep.Push.Channel, rep.Push.Pub.Data, nil
+}
+
+func stall(inRaw json.RawMessage, res *vh.Result) error {
+	var in struct {
+		Rounds int `json:"rounds"`
+	}
+	if err := json.Unmarshal(inRaw, &in); err != nil {
+		return err
+	}
+	if in.Rounds <= 0 {
+		in.Rounds = 20
+	}
+	// one P: a sync.Pool hands an object put back by one goroutine to the next goroutine that asks (per-P
+	// private slot), which is what makes reuse of a pooled buffer by the other connection deterministic
+	prev := runtime.GOMAXPROCS(1)
+	defer runtime.GOMAXPROCS(prev)
+	w, err := newWorld()
+	if err != nil {
+		return err
+	}
+	defer w.close()
+	rnd := rand.New(rand.NewSource(vh.Seed()))
+	for _, transport := range []string{"hs-pb", "hs-json", "sse-post"} {
+		sc := &scenario{Transport: transport, Class: "stalled-write", Field: "payload"}
+		a, err := w.stallConnect(transport, "stall-a-"+transport, res)
+		if err != nil {
+			res.Drift("C32", "stall probe: "+err.Error(), nil)
+			continue
+		}
+		b, err := w.stallConnect(transport, "stall-b-"+transport, res)
+		if err != nil {
+			a.cancel()
+			res.Drift("C32", "stall probe: "+err.Error(), nil)
+			continue
+		}
+		conns := [2]*stallConn{a, b}
+		for round := 0; round < in.Rounds; round++ {
+			st, other := conns[round%2], conns[(round+1)%2] // the stalled connection alternates
+			n := 8 + rnd.Intn(300)
+			mk := func(tag byte) []byte {
+				if transport == "hs-pb" {
+					d := bytes.Repeat([]byte{tag}, n)
+					d[0], d[n-1] = byte(round), '\n'
+					return d
+				}
+				return []byte(fmt.Sprintf(`{"who":"%s","round":%d}`, strings.Repeat(string(tag), n), round))
+			}
+			mine, theirs := mk('S'), mk('O') // same length
+			nSt, nOther := len(st.gw.records()), len(other.gw.records())
+			st.gw.arm()
+			if _, err := w.node.Publish(st.cs.sc.Channel, mine); err != nil {
+				return err
+			}
+			select {
+			case <-st.gw.entered:
+			case <-time.After(writeWait):
+				res.Drift("C32", fmt.Sprintf("stall probe %s round %d: Write of the stalled connection never entered", transport, round), nil)
+				continue
+			}
+			if _, err := w.node.Publish(other.cs.sc.Channel, theirs); err != nil {
+				return err
+			}
+			otherOK := other.gw.waitRecords(nOther+1, writeWait)
+			st.gw.release <- struct{}{}
+			if !otherOK {
+				res.Drift("C32", fmt.Sprintf("stall probe %s round %d: the other connection did not get its message while one Write was stalled", transport, round), nil)
+				continue
+			}
+			if !st.gw.waitRecords(nSt+1, writeWait) {
+				res.Violate("C32", sc.sig("lost"), fmt.Sprintf("%s: the message of a connection whose Write was stalled never arrived as a record (round %d)", transport, round), map[string]any{"transport": transport, "round": round})
+				continue
+			}
+			for _, chk := range []struct {
+				c    *stallConn
+				idx  int
+				want []byte
+				who  string
+			}{{st, nSt, mine, "stalled"}, {other, nOther, theirs, "other"}} {
+				rec := chk.c.gw.records()[chk.idx]
+				ch, data, err := pubData(transport, rec)
+				same := err == nil && ch == chk.c.cs.sc.Channel
+				if same {
+					if transport == "hs-pb" {
+						same = bytes.Equal(data, chk.want)
+					} else {
+						var x, y any
+						same = json.Unmarshal(data, &x) == nil && json.Unmarshal(chk.want, &y) == nil && reflect.DeepEqual(x, y)
+					}
+				}
+				if !same {
+					res.Violate("C32", sc.sig(""), fmt.Sprintf("%s: connection A's ResponseWriter.Write was stalled before consuming its argument while connection B received a message; "+
+						"the %s connection then received a record that is not its message: channel %q data %q (err %v), expected channel %q data %q (round %d)",
+						transport, chk.who, ch, clip(data), err, chk.c.cs.sc.Channel, clip(chk.want), round),
+						map[string]any{"transport": transport, "round": round, "stalled": st.name, "length": n})
+				}
+			}
+			res.Done(1, 1)
+			res.Distinct(fmt.Sprintf("%s/%d", transport, round))
+		}
+		for _, c := range conns {
+			c.cancel()
+			select {
+			case <-c.done:
+			case <-time.After(writeWait):
+				res.Drift("C32", "stall probe: handler did not return after its request context was cancelled", nil)
+			}
+		}
+	}
+	return nil
+}
+
+func main() { vh.Main(map[string]vh.Mode{"table": table, "replay": replay, "stall": stall}) }
